@@ -203,6 +203,8 @@ func (borderRadius *borderRadiusTracker) compactRules(rules []css_ast.Rule, keyR
 		if loc := rules[corner.ruleIndex].Loc; i == 0 || loc.Start < minLoc.Start {
 			minLoc = loc
 		}
+	}
+	for _, corner := range borderRadius.corners {
 		rules[corner.ruleIndex] = css_ast.Rule{}
 	}
 
